@@ -155,6 +155,11 @@ func genCase(t *rapid.T, proto string, i int, thorough bool) Case {
 		if rapid.Bool().Draw(t, "pieces") {
 			c.Pieces = rapid.SliceOfN(rapid.SampledFrom([]int{1, 7, 100, 4096, 16384, 30000}), 1, 4).Draw(t, "pcs")
 		}
+		if rapid.IntRange(0, 4).Draw(t, "expect") == 0 {
+			// the client announces that it would like a go-ahead before the body (RFC 9110 10.1.1); whether it waits
+			// for one is its business, the interim response must be a well-formed one wherever on the connection it comes
+			c.Headers = append(c.Headers, [2]string{"Expect", "100-continue"})
+		}
 		if c.Chunked && rapid.IntRange(0, 2).Draw(t, "rtr") == 0 {
 			c.ReqTrailers = [][2]string{{"X-Req-Trailer", shortValue(t, "rtv")}, {"X-Checksum", "abc123"}}
 		}
@@ -493,6 +498,14 @@ func exec(t *testing.T, s Script) *vstat.Violation {
 				// compare the sequence of non-empty crumbs
 				wv, gv = crumbs(wv), crumbs(gv)
 			}
+			if k == "Expect" && len(gv) == 0 && s.Proto != "http/1.1" {
+				// input class "HTTP/2 request with Expect: 100-continue", observed "the field does not reach the backend"
+				// (the HTTP/2 server answers the expectation itself and deletes the field): a listed finding
+				if v := vstat.Violf("h2-expect-100-continue|expect-field-not-forwarded", "case %d: the client sent Expect: 100-continue over HTTP/2; the backend received no Expect field", i); !col.Known(v.Sig) {
+					return v
+				}
+				continue
+			}
 			if fmt.Sprint(gv) != fmt.Sprint(wv) {
 				return vstat.Violf(pc+"|request-header-changed", "case %d: header %s sent as %q, backend received %q", i, k, wv, gv)
 			}
@@ -586,6 +599,11 @@ func exec(t *testing.T, s Script) *vstat.Violation {
 		}
 		if c.Chunked {
 			classes = append(classes, "chunked-or-unknown-length")
+		}
+		for _, h := range c.Headers {
+			if h[0] == "Expect" && i > 0 {
+				classes = append(classes, "expect-100-continue-on-a-used-connection:"+s.Proto)
+			}
 		}
 	}
 	classes = append(classes, "proto:"+s.Proto, fmt.Sprintf("preserve-host:%v", s.PreserveHost))
@@ -687,7 +705,7 @@ func dedup(in []string) []string {
 func TestPassThrough(t *testing.T) {
 	rig.Certs()
 	col.Mandatory("proto:h2", "proto:http/1.1", "preserve-host:true", "preserve-host:false", "request-body>64KiB", "response-body>64KiB", "request-trailers", "response-trailers", "hop-by-hop", "concurrent", "chunked-or-unknown-length", "proto:h2raw", "padded-request-data", "unannounced-request-trailers",
-		"response-trailers-all-empty:h2", "uploads-beyond-1MiB-on-one-connection:h2")
+		"response-trailers-all-empty:h2", "uploads-beyond-1MiB-on-one-connection:h2", "expect-100-continue-on-a-used-connection:h2")
 	vstat.Run(t, vstat.Spec[Script]{Col: col, Quick: 500, Thorough: 8000, Gen: gen, Exec: func(s Script) *vstat.Violation { return exec(t, s) }})
 }
 
